@@ -528,11 +528,11 @@ class BaseEvent(BaseModel, Generic[T_EventResultType]):
                 f'Expected at least one handler to return a non-None result, but none did! {self} -> {self.event_results}'
             )
 
+        # the include filter alone decides what is returned: a caller-supplied filter may deliberately admit
+        # None results and errors (the default filter excludes them)
         event_results_by_handler_id: dict[PythonIdStr, EventResult[T_EventResultType]] = {
             handler_key: result for handler_key, result in included_results.items()
         }
-        for event_result in event_results_by_handler_id.values():
-            assert event_result.result is not None, f'EventResult {event_result} has no result'
 
         return event_results_by_handler_id
 
